@@ -101,6 +101,15 @@ class Ctx:
         wall = time.time() - self.t0
         cov = dict(self.cov)
         cov.update(self.notes)
+        # keys typed by EVIDENCE.schema.json must keep their types
+        if "exhaustive" in cov and not isinstance(cov["exhaustive"], bool):
+            cov["exhaustive_detail"] = cov.pop("exhaustive")
+        for k in ("states", "transitions", "programs", "disagreements_checked", "evaluations",
+                  "distinct_nontrivial", "traces_validated_against_impl", "obligations", "discharged"):
+            if k in cov and not isinstance(cov[k], int):
+                cov[k + "_detail"] = cov.pop(k)
+        if not isinstance(cov.get("explanation", ""), str):
+            cov["explanation_detail"] = cov.pop("explanation")
         if not cov["samples"]:
             cov["samples"] = ["(no samples recorded)"]
         ev = {
